@@ -31,20 +31,15 @@ Definition join (els : list bytes) : bytes := flat_map (fun e => "/" :: e) els.
 
 Definition is_empty (e : bytes) : bool := match e with [] => true | _ => false end.
 
-(* trailing slash iff the input (longer than one byte) ended in '/' or its last
-   element is "."; never on the root *)
+(* the result is the root when no element remains; otherwise the joined elements,
+   with a trailing slash iff the input ended in '/' (its last element is empty)
+   or its last element is "." *)
 Definition clean_spec (p : bytes) : bytes :=
-  match p with
+  let els := split_slash p [] in
+  let lastel := last els [] in
+  match process els [] with
   | [] => ["/"]
-  | _ =>
-    let els := split_slash p [] in
-    let out := join (process els []) in
-    let lastel := last els [] in
-    let trailing := (Nat.ltb 1 (List.length p) && is_empty lastel) || is_dot lastel in
-    match out with
-    | [] => ["/"]
-    | _ => if trailing then out ++ ["/"] else out
-    end
+  | out => join out ++ (if is_empty lastel || is_dot lastel then ["/"] else [])
   end.
 
 (* the set of canonical paths: rooted, no empty / "." / ".." element,
@@ -65,3 +60,8 @@ Definition canonical (p : bytes) : bool :=
       end
   | [] => false
   end.
+
+(* vocabulary for the trailing-slash clause *)
+Definition last_elem (p : bytes) : bytes := last (split_slash p []) [].
+Definition ends_with_slash (p : bytes) : Prop := exists q, p = q ++ ["/"].
+Definition root : bytes := ["/"].
